@@ -1000,18 +1000,22 @@ fn f_c11_recv<const P: usize>(occupancy: usize) {
         }
         k += 1;
     }
-    let got = ep.mux.datagram_rx.lock().try_recv();
+    // (through the public API only, so that a change of the receiver's representation does not
+    // break the harness: seed C11c)
+    let got = now_or_never(ep.mux.get_datagram());
     if occupancy < 2 {
         match &got {
-            Ok(d) => {
-                vassert!(d.flow_id == id && d.target_port == port, "P:C11 delivered datagram has the wrong flow id / port");
+            Some(Ok(d)) => {
+                vassert!(d.flow_id == id && d.target_port == port, "P:C11 delivered datagram has the wrong flow id / port (or datagrams are delivered out of order)");
                 vassert!(d.target_host.len() == 1 && d.target_host[0] == host[0] && bytes_eq(&d.data, &data), "P:C11 delivered datagram has the wrong host / payload");
             }
-            Err(_) => vfail!("P:C11 datagram lost although the buffer had room"),
+            _ => vfail!("P:C11 datagram lost although the buffer had room"),
         }
-        vassert!(ep.mux.datagram_rx.lock().try_recv().is_err(), "P:C11 datagram delivered twice");
+        let again = now_or_never(ep.mux.get_datagram());
+        vassert!(again.is_none(), "P:C11 datagram delivered twice");
+        core::mem::forget(again);
     } else {
-        vassert!(got.is_err(), "P:C11 datagram accepted beyond the buffer size");
+        vassert!(got.is_none(), "P:C11 datagram accepted beyond the buffer size");
     }
     check_bystander(&ep, &mut by);
     kani::cover!(true, "receive evaluated");
